@@ -184,9 +184,10 @@ class C20(Prop):
     # `do <oid> later,<op>` / `hb,<op>`: the same op, started by the driver from a call_out / the object's heart_beat
     # (current_object = that object): compared with and judged as the plain op
     DRIVEN = re.compile(r"^(do \S+ )(?:later|hb),")
+    CONNECT = re.compile(r"^(do m )connect,")          # mudlib_connect() -> master connect() -> a clone op of the master
 
     def run_model(self, ctx, cases):
-        mapped = [E.Case(c.id, [self.ALIAS.sub("load,", self.DRIVEN.sub(r"\1", l)) if l.startswith(("do ", "script ")) else l
+        mapped = [E.Case(c.id, [self.ALIAS.sub("load,", self.CONNECT.sub(r"\1clone,", self.DRIVEN.sub(r"\1", l))) if l.startswith(("do ", "script ")) else l
                                 for l in c.lines], c.meta)
                   for c in cases]
         return E.nvdrive(self.id, "model", E.cases_text(mapped))
@@ -196,7 +197,7 @@ class C20(Prop):
         for l in lines:
             l = l.rstrip()
             if l.startswith("do "):
-                l = self.ALIAS.sub("load,", self.DRIVEN.sub(r"\1", l))
+                l = self.ALIAS.sub("load,", self.CONNECT.sub(r"\1clone,", self.DRIVEN.sub(r"\1", l)))
             if not l or l.startswith("sanitizer "):
                 continue
             if l.startswith("crash"):
@@ -397,7 +398,9 @@ class C20(Prop):
                               "do u1b hb,bind,u1a,load,/c20/u2/b", "script /c20/u2/c load,/c20/odd/a", "do u1a later,load,/c20/u2/c",
                               "do u1a hb,reload,u1b", "do u1b hb,call,/c20/root/a", "do m preload,/c20/root/b", "do m preload,/c20/root/b",
                               "do m preload,/c20/zz/nofile", "pol cf bb err", "do m preload,/c20/bb/c", "do u1a filter,/c20/odd/b",
-                              "do m filter,/c20/odd/b", "do m seteuid,i:0", "do m preload,/c20/odd/c"])
+                              "do m filter,/c20/odd/b", "do m seteuid,i:0", "do m preload,/c20/odd/c",
+                              "do m connect,c7,/c20/u1/a", "do m connect,c7,/c20/u1/a", "pol cf u1 err", "do m connect,c8,/c20/u1/a",
+                              "do m connect,m,/c20/u1/a", "do m connect,c9,/c20/zz/nofile"])
         # ---- round 5: the other efuns that load an object by name for their caller
         mk("load-by-other-efuns", ["do m load,/c20/u1/a", "do u1a call,/c20/u1/b", "do u1a calla,/c20/u1/b", "do u1a tellroom,/c20/u1/b",
                                    "do u1a seteuid,s:u1", "do u1a call,/c20/u1/b", "do u1a calla,/c20/u1/c", "do u1a tellroom,/c20/u2/a",
@@ -654,7 +657,9 @@ class C20(Prop):
         # one top-level op in eight is started by the driver: from a call_out / from the actor's heart_beat
         out = []
         for l in lines:
-            if l.startswith("do ") and " preload," not in l and rng.chance(1, 8):
+            if l.startswith("do m clone,") and rng.chance(1, 5):
+                l = "do m connect," + l[len("do m clone,"):]
+            elif l.startswith("do ") and " preload," not in l and rng.chance(1, 8):
                 t = l.split(" ", 2)
                 l = "do %s %s,%s" % (t[1], rng.choice(["later", "hb"]), t[2])
             out.append(l)
